@@ -20,7 +20,7 @@ import logic
 
 ID = "C02"
 TRUSTED = [
-    "translator/logic.py (ast -> Lean for the integer decision logic); its output is also exercised against the real functions for every length explored",
+    "translator/logic.py (+ symtrace.py, sites.py: symbolic tracing of the real functions -> Lean for the integer decision logic; trusted parts listed in its header); its output is also exercised against the real functions for every length explored",
     "correspondence harness harness/props/C02.py; rich/typer output capture",
 ]
 ASSUMPTIONS = ["function lengths are Python ints (the analysis only produces ints)"]
